@@ -164,6 +164,10 @@ def make_parser(ps, gens):
     b = ps["b"]
     if b == "ast":
         from gherkin.ast_builder import AstBuilder
+        if ps.get("late"):  # wired after construction through the public attribute
+            builder = AstBuilder()
+            builder.id_generator = gens[ps["g"]]
+            return Parser(builder)
         return Parser(AstBuilder(gens[ps["g"]]))
     if b == "astd":
         return Parser()
@@ -175,6 +179,10 @@ def make_parser(ps, gens):
 
 def make_compiler(cs, gens):
     from gherkin.pickles.compiler import Compiler
+    if cs.get("g") is not None and cs.get("late"):
+        c = Compiler()
+        c.id_generator = gens[cs["g"]]
+        return c
     return Compiler(gens[cs["g"]]) if cs.get("g") is not None else Compiler()
 
 
